@@ -461,6 +461,15 @@ class SSHConfig:
                 if args:
                     self._error(f'Extra data at end: {" ".join(args)}')
 
+    def expand_options(self) -> None:
+        """Expand tokens and environment variables in option values
+
+           This is done once, after all of the config files (and any
+           files they include) have been parsed, so that values are
+           expanded exactly once, using the final token values.
+
+        """
+
         self._set_tokens()
 
         for option in self._percent_expand:
@@ -497,6 +506,8 @@ class SSHConfig:
 
             for path in paths:
                 config.parse(Path(path))
+
+            config.expand_options()
 
             config.loaded = True
 
